@@ -172,6 +172,27 @@ static void run(void) {
 		else { /* reset of an untouched signer */ }
 		if (KSI_BlockSigner_reset(b) != KSI_OK) vf_fail("reset-failed", "KSI_BlockSigner_reset failed");
 		vf_count("impl_calls", 1);
+		/* like a new signer: before the block is closed no leaf signature exists; a second reset is harmless */
+		{
+			KSI_BlockSignerHandle *probe = NULL, *probe2 = NULL;
+			KSI_Signature *ps = NULL;
+			KSI_DataHash *ph = leaf_hash(ctx, 777);
+			KSI_BlockSigner *fresh = new_signer(ctx, masking);
+			int r_reset, r_fresh;
+			KSI_BlockSigner_addLeaf(b, ph, 0, NULL, &probe);
+			KSI_BlockSigner_addLeaf(fresh, ph, 0, NULL, &probe2);
+			r_reset = KSI_BlockSignerHandle_getSignature(probe, &ps);
+			if (ps) { KSI_Signature_free(ps); ps = NULL; }
+			r_fresh = KSI_BlockSignerHandle_getSignature(probe2, &ps);
+			if (ps) { KSI_Signature_free(ps); ps = NULL; }
+			vf_count("impl_calls", 4);
+			if ((r_reset == KSI_OK) != (r_fresh == KSI_OK)) vf_fail("reset-differs-from-new", "getSignature on an unclosed block: reset signer 0x%x, new signer 0x%x", r_reset, r_fresh);
+			vf_outcome("unclosed-getSignature:%s", r_reset == KSI_OK ? "ok" : "refused");
+			KSI_BlockSignerHandle_free(probe); KSI_BlockSignerHandle_free(probe2);
+			KSI_DataHash_free(ph);
+			KSI_BlockSigner_free(fresh);
+			if (KSI_BlockSigner_reset(b) != KSI_OK) vf_fail("reset-failed", "second KSI_BlockSigner_reset failed");
+		}
 		do_block(ctx, b, n, 50, meta, 0, &ob, "reset signer");
 		if (oa.n != ob.n || memcmp(oa.p, ob.p, oa.n) != 0) vf_fail("reset-differs-from-new", "masking %d metadata %d: the block of %d leaves signed after reset (first block %d leaves) differs from the same block signed by a new signer (%zu vs %zu bytes of signatures + previous-leaf value)", masking, meta, n, n1, ob.n, oa.n);
 		vf_outcome("reset:%s", (oa.n == ob.n && memcmp(oa.p, ob.p, oa.n) == 0) ? "identical" : "DIFFERENT");
